@@ -51,6 +51,11 @@ def run_c19(case):
         app = make_app(fake_clock=True, adapter=FileAdapter(case["compress"], d))
         client = app.test_client()
         u = start(client, timeout={"seconds": 100}); begin(client, u)
+        if case.get("resession"):
+            # an earlier session of the same instance that was saved at the same clock positions
+            for kind in case["resession"]:
+                step_req(client, u, kind)
+            client.post("/%s/begin-session" % u, json={"scenario_managers": ["sm"], "scenarios": ["base"], "equations": ["s"]})
         for kind in case["kinds"]:
             r = step_req(client, u, kind)
             if r.status_code != 200:
@@ -153,13 +158,17 @@ def core(kinds, compress):
 
 def gen19(rnd):
     compress = rnd.random() < 0.5
-    n = rnd.randint(1, 5)
+    n = rnd.choice([1, 2, 3, 4, 5, 10, 10])
     if compress:
         kinds = [rnd.choice(['1.0', '2.0', '3.0', 'multi2.0']) for _ in range(n)]
     else:
         kinds = [rnd.choice(['1.0', '2.0', 'none', 'empty', 'multi1.0', 'multi3.0']) for _ in range(n)]
     kinds = kinds[:4] if any(k.startswith('multi') for k in kinds) else kinds
-    return dict(compress=compress, kinds=kinds, mode=rnd.choice(['evict', 'server']))
+    case = dict(compress=compress, kinds=kinds, mode=rnd.choice(['evict', 'server']))
+    if rnd.random() < 0.35 and len(kinds) <= 5:
+        # the same instance had an earlier session with the same number of steps / requests (other settings, other equations)
+        case['resession'] = [('multi7.0' if k.startswith('multi') else '7.0') for k in kinds]
+    return case
 
 
 def gen20(rnd):
